@@ -39,8 +39,12 @@ def hdr_std(phase, kind, scal, prev, unwind=11):
                                                                        "true" if scal else "false", "true" if prev else "false"))
 
 
-CORE_STUBS = MODEL_STUBS + (
+TOTAL_STUBS = MODEL_STUBS.replace("peek_bits_model", "peek_bits_total").replace("skip_bits_model", "skip_bits_total")
+CORE_STUBS = TOTAL_STUBS + (
+    '    #[cfg_attr(kani, kani::stub(crate::Error::is_eof_error, crate::decoder::state::verif_state::is_eof_sentinel))]\n' +
     '    #[cfg_attr(kani, kani::stub(f32::ceil, crate::decoder::state::verif_state::ceil32_model))]\n'
+    '    #[cfg_attr(kani, kani::stub(crate::decoder::cpu::mvd_pred::predict_candidate, crate::decoder::state::verif_state::predict_candidate_stub))]\n'
+    '    #[cfg_attr(kani, kani::stub(crate::decoder::cpu::mvd_pred::mv_decode, crate::decoder::state::verif_state::mv_decode_stub))]\n'
     '    #[cfg_attr(kani, kani::stub(crate::decoder::cpu::rle::inverse_rle, crate::decoder::state::verif_state::inverse_rle_contract))]\n'
     '    #[cfg_attr(kani, kani::stub(crate::decoder::cpu::gather::gather, crate::decoder::state::verif_state::gather_contract))]\n'
     '    #[cfg_attr(kani, kani::stub(crate::decoder::cpu::idct::idct_channel, crate::decoder::state::verif_state::idct_channel_contract))]\n')
@@ -48,27 +52,97 @@ CORE_STUBS = MODEL_STUBS + (
 HDR_BYTES, MB_STRIDE = 16, 24 + 6 * 8
 
 
-def core_c1_name(cls, nmb, shape):
-    return "c01_core_g%d_mb%d_s%d" % (cls, nmb, shape)
+MB_BYTES, BLK_BYTES = 24, 8
+
+# record kinds (see harness/h263/src/decoder/state.rs.inc: producers)
+H_OK, H_NONE = 0, 1
+M_CODED, M_UNCODED, M_STUFF = 0, 1, 2          # 3 + c = Err(code c); code 0 = end of data
+ERR_NAMES = ["Eof", "Internal", "MiddleOfBitstream", "InvalidMacroblockHeader", "InvalidMacroblockCodedBits", "InvalidIntraDc", "InvalidShortCoefficient",
+             "InvalidLongCoefficient", "InvalidMvd", "InvalidPType", "InvalidPlusPType", "InvalidGobHeader", "InvalidBitstream", "PictureFormatMissing",
+             "PictureFormatInvalid", "Unimplemented"]
 
 
-def core_c1(cls, nmb, shape):
-    n = HDR_BYTES + nmb * MB_STRIDE
-    unwind = max(nmb + 3, 4 * cls * cls + 2, 6)
-    return ('    #[cfg_attr(kani, kani::proof)]\n    #[cfg_attr(kani, kani::unwind(%d))]\n%s'
+class Scenario:
+    """structure of one decode call: header kind, macroblock record kinds, optional failing block, optional GOB answers"""
+
+    def __init__(self, hk=H_OK, mbs=(), blk_err=None, gob=None, tag="", pt=None, fk=None):
+        self.hk, self.mbs, self.blk_err, self.gob, self.tag = hk, list(mbs), blk_err, gob or {}, tag
+        self.pt, self.fk = pt, fk     # picture type code / format kind (None = symbolic)
+
+    def nbytes(self):
+        return HDR_BYTES + len(self.mbs) * MB_STRIDE
+
+    def writes(self):
+        w = [(0, self.hk)]
+        if self.pt is not None:
+            w.append((2, self.pt))
+        if self.fk is not None:
+            w.append((3, self.fk))
+        for i, k in enumerate(self.mbs):
+            base = HDR_BYTES + i * MB_STRIDE
+            ty = None
+            if isinstance(k, tuple):
+                k, ty = k
+            w.append((base, k))
+            if ty is not None:
+                w.append((base + 1, ty))
+            for j in range(6):
+                code = 0
+                if self.blk_err and self.blk_err[0] == i and self.blk_err[1] == j:
+                    code = 1 + self.blk_err[2]
+                w.append((base + MB_BYTES + j * BLK_BYTES, code))
+            if i in self.gob:
+                w.append((base + 8, self.gob[i][0]))
+                w.append((base + 9, self.gob[i][1]))
+        return w
+
+    def describe(self):
+        def mk(k):
+            if isinstance(k, tuple):
+                return "coded:" + ["INTER", "INTER+Q", "INTER4V", "INTRA", "INTRA+Q", "INTER4V+Q"][k[1] % 6]
+            return {0: "coded(any type)", 1: "not-coded", 2: "stuffing"}.get(k, "Err(%s)" % ERR_NAMES[(k - 3) % 16])
+        d = "type=%s format=%s " % ({None: "any", 0: "I", 1: "P", 2: "disposable"}.get(self.pt, self.pt), {None: "any", 0: "inherited", 7: "custom"}.get(self.fk, self.fk))
+        d += "header=%s; macroblocks=[%s]" % ({0: "ok", 1: "gob"}.get(self.hk, "Err(%s)" % ERR_NAMES[(self.hk - 2) % 16]), ", ".join(mk(k) for k in self.mbs))
+        if self.blk_err:
+            d += "; block %d of macroblock %d fails with %s" % (self.blk_err[1], self.blk_err[0], ERR_NAMES[self.blk_err[2] % 16])
+        if self.gob:
+            d += "; gob answers %s" % self.gob
+        return d
+
+
+def core_c1_name(cls, shape, idx):
+    return "core_g%d_s%d_%03d" % (cls, shape, idx)
+
+
+def core_c1(cls, shape, idx, sc, max_mbs=None, excl=False):
+    n = sc.nbytes()
+    unwind = max(len(sc.mbs) + 3, 4 * cls * cls + 2, 6)
+    body = "        let mut script: [u8; %d] = nd();\n" % n
+    for off, val in sc.writes():
+        body += "        script[%d] = %d;\n" % (off, val)
+    if excl:
+        body += "        step_c1x::<%d, %d, %d, true>(script);\n" % (cls, n, shape)
+    else:
+        body += "        step_c1::<%d, %d, %d>(script);\n" % (cls, n, shape)
+    return ('    /// %s\n    #[cfg_attr(kani, kani::proof)]\n    #[cfg_attr(kani, kani::unwind(%d))]\n%s'
             '    #[cfg_attr(kani, kani::stub(f64::ceil, crate::decoder::state::verif_state::ceil64_class%d))]\n'
-            '    pub fn %s() { step_c1::<%d, %d, %d, %d>() }\n' % (unwind, CORE_STUBS, cls, core_c1_name(cls, nmb, shape), cls, nmb, n, shape))
+            '    pub fn %s() {\n%s    }\n' % (sc.describe(), unwind, CORE_STUBS, cls, core_c1_name(cls, shape, idx) + ("_x" if excl else ""), body))
 
 
-def core_zero_name(w, h):
-    return "c01_core_zero_%dx%d" % (w, h)
+def core_zero_name(w, h, shape):
+    return "core_zero_%dx%d_s%d" % (w, h, shape)
 
 
-def core_zero(w, h, nmb=1):
-    n = HDR_BYTES + nmb * MB_STRIDE
+def core_zero(w, h, shape):
+    sc = Scenario(H_OK, [M_CODED, 3])
+    n = sc.nbytes()
+    body = "        let mut script: [u8; %d] = nd();\n" % n
+    for off, val in sc.writes():
+        body += "        script[%d] = %d;\n" % (off, val)
+    body += "        step_zero::<%d, %d, %d, %d>(script);\n" % (w, h, n, shape)
     return ('    #[cfg_attr(kani, kani::proof)]\n    #[cfg_attr(kani, kani::unwind(8))]\n%s'
-            '    #[cfg_attr(kani, kani::stub(f64::ceil, crate::decoder::state::verif_state::ceil64_model))]\n'
-            '    pub fn %s() { step_zero::<%d, %d, %d>() }\n' % (CORE_STUBS, core_zero_name(w, h), w, h, n))
+            '    #[cfg_attr(kani, kani::stub(f64::ceil, crate::decoder::state::verif_state::ceil64_small))]\n'
+            '    pub fn %s() {\n%s    }\n' % (CORE_STUBS, core_zero_name(w, h, shape), body))
 
 
 def gblock_name(w, h, px, py):
@@ -105,3 +179,49 @@ def idct_inst(kind, w, h):
 
 def idct_sizes():
     return [(1, 1), (8, 8), (5, 3), (16, 16), (17, 9), (9, 17)]
+
+
+def dev_core(name, shape, obs, sc):
+    n = sc.nbytes()
+    body = "        let mut script: [u8; %d] = nd();\n" % n
+    for off, val in sc.writes():
+        body += "        script[%d] = %d;\n" % (off, val)
+    body += "        dev_core::<%d, %s, %d>(script);\n" % (shape, "true" if obs else "false", n)
+    return ('    #[cfg_attr(kani, kani::proof)]\n    #[cfg_attr(kani, kani::unwind(6))]\n%s'
+            '    #[cfg_attr(kani, kani::stub(f64::ceil, crate::decoder::state::verif_state::ceil64_class1))]\n'
+            '    pub fn %s() {\n%s    }\n' % (CORE_STUBS, name, body))
+
+
+def dev_prof(name, stage, sc):
+    n = sc.nbytes()
+    body = "        let mut script: [u8; %d] = nd();\n" % n
+    for off, val in sc.writes():
+        body += "        script[%d] = %d;\n" % (off, val)
+    body += "        dev_prof::<%d, %d>(script);\n" % (stage, n)
+    return ('    #[cfg_attr(kani, kani::proof)]\n    #[cfg_attr(kani, kani::unwind(6))]\n%s'
+            '    #[cfg_attr(kani, kani::stub(f64::ceil, crate::decoder::state::verif_state::ceil64_small))]\n'
+            '    pub fn %s() {\n%s    }\n' % (CORE_STUBS, name, body))
+
+
+def dev_const(name, sc):
+    n = sc.nbytes()
+    body = "        let mut script: [u8; %d] = nd();\n" % n
+    for off, val in sc.writes():
+        body += "        script[%d] = %d;\n" % (off, val)
+    body += "        dev_const::<%d>(script);\n" % (n)
+    return ('    #[cfg_attr(kani, kani::proof)]\n    #[cfg_attr(kani, kani::unwind(6))]\n%s'
+            '    pub fn %s() {\n%s    }\n' % (CORE_STUBS, name, body))
+
+
+def gsize_name(rw, rh, nw, nh):
+    return "c01_gather_ref%dx%d_new%dx%d" % (rw, rh, nw, nh)
+
+
+def gsize(rw, rh, nw, nh):
+    return ('    #[cfg_attr(kani, kani::proof)]\n    #[cfg_attr(kani, kani::unwind(9))]\n'
+            '    #[cfg_attr(kani, kani::stub(f32::ceil, crate::decoder::cpu::gather::verif_gather::ceil32_model))]\n'
+            '    pub fn %s() { gather_sizes_check::<%d, %d, %d, %d>() }\n' % (gsize_name(rw, rh, nw, nh), rw, rh, nw, nh))
+
+
+def gsize_all():
+    return [(16, 16, 16, 16), (8, 8, 16, 16), (16, 16, 8, 8), (1, 1, 16, 16), (16, 16, 1, 1), (17, 9, 9, 17), (5, 3, 5, 3), (1, 1, 1, 1), (16, 8, 16, 16)]
